@@ -25,6 +25,10 @@ def check_values(h, out, res, kind_prefix, lanes=None, label=''):
     nsim = out['c'].shape[1]
     lanes = range(nsim) if lanes is None else lanes
     checked = 0
+    for l in range(meta.n_lines):
+        if meta.c_locs[l] < 0:
+            res.violate(kind_prefix + 'line-not-simulated', f'{label}line {l} ({h.circuit.lines[l].driver.name} -> {h.circuit.lines[l].reader.name}) has no waveform memory: its driver was never scheduled')
+            return False
     # waveforms as produced (works with memory re-use too)
     for (row, lane), (op, w) in sorted(out['produced'].items(), key=lambda kv: (str(kv[0][0]), kv[0][1])):
         z = op[1]
